@@ -108,7 +108,9 @@ fn cross(a: P, b: P, c: P) -> i128 {
 /// triangle x,y >= 0, x+y <= 1; |area| >= 1e-3; the white point strictly inside
 /// the primaries' triangle (each primary contributes positively to white).
 fn real_space(w: P, t: [P; 3]) -> bool {
-    if t.iter().any(|p| p.0 < 0 || p.1 < 0 || p.0 + p.1 > U) {
+    // y = 0 gives a primary of zero luminance: x/y is undefined, and every RGB<->XYZ construction divides by y
+    // (y >= 0.001 keeps all real-world spaces except ProPhoto's blue, y = 0.0001)
+    if t.iter().any(|p| p.0 < 0 || p.1 < 1000 || p.0 + p.1 > U) {
         return false;
     }
     let a = cross(t[0], t[1], t[2]);
@@ -1184,7 +1186,7 @@ impl Check for C19 {
     fn rule(&self) -> String {
         format!(
             "choice sequence -> sub-check (weights 5:4:1). \
-(a) icc: EnumColourEncoding{{Rgb|Grey; white point D65/E/DCI/custom; primaries sRGB/BT.2100/P3/custom; tf gamma (inverted field {G_MIN}..=1e7, non-inverted 1e7..=u32::MAX)/BT.709/linear/sRGB/PQ/DCI/HLG; 4 intents}} naming a real colour space by construction (custom white x,y>0, x+y<1 with Bradford cone responses within {WHITE_CONE_RATIO_MAX}x of D50's; primaries inside x,y>=0, x+y<=1, |area|>=1e-3, white point strictly inside their triangle) -> colour_encoding_to_icc -> ColorEncodingWithProfile::with_icc must be Ok and an enum encoding with the same colour space and intent, white point and primaries within {TOL_XY:e} in xy of the described values (named values per the standards; named<->custom accepted), tf equal (pure powers incl. linear and DCI compared by decoding exponent within {TOL_GAMMA_REL:e} relative). \
+(a) icc: EnumColourEncoding{{Rgb|Grey; white point D65/E/DCI/custom; primaries sRGB/BT.2100/P3/custom; tf gamma (inverted field {G_MIN}..=1e7, non-inverted 1e7..=u32::MAX)/BT.709/linear/sRGB/PQ/DCI/HLG; 4 intents}} naming a real colour space by construction (custom white x,y>0, x+y<1 with Bradford cone responses within {WHITE_CONE_RATIO_MAX}x of D50's; primaries inside x>=0, y>=0.001, x+y<=1, |area|>=1e-3, white point strictly inside their triangle) -> colour_encoding_to_icc -> ColorEncodingWithProfile::with_icc must be Ok and an enum encoding with the same colour space and intent, white point and primaries within {TOL_XY:e} in xy of the described values (named values per the standards; named<->custom accepted), tf equal (pure powers incl. linear and DCI compared by decoding exponent within {TOL_GAMMA_REL:e} relative). \
 (b) curve: ColorTransform::new(linear->tf) and (tf->linear) with NullCms on identical primaries/white point/intent, run on three planar buffers like the renderer (ascending / rotated / descending copies, or r=g=b); sorted samples (dense grids, random, curve breakpoints and their neighbours) in [-0.5,1.5] (sRGB/BT.709/gamma/DCI/linear) or [0,1] (PQ/HLG, gamma exponent > {CURVE_GAMMA_MAX_EXPONENT}): outputs finite; each direction non-decreasing along strictly ordered inputs up to {MONO_SLACK:e}*max(1,|out|) (plus the analytic BT.709 published-constant gap for its decoder and {PQ_DECODE_STEP_BACK:e}*10000/intensity_target for the PQ decoder); |x'-x| <= tol*max(1,|x|) on [0,1] and (1,1.5] (negative inputs only for sRGB/BT.709/linear; pure gamma clamps them to 0 by design) with tol = {TOL_RT:e} (BT.709, gamma <= {CURVE_GAMMA_MAX_EXPONENT}, DCI, linear), {TOL_RT:e}*max(1,255/intensity_target) (PQ, HLG), {TOL_RT_SRGB:e} (sRGB) for intensity targets <= 255; PQ/HLG at 1000/4000/10000: encode direction finite+monotone; all targets, RGB, along r=g=b: PQ<->HLG there-and-back within 2*tol measured in display-linear light with the f64 reference decoder. \
 (c) identity: ColorTransform::new(e,e) (enum, or both sides parsed from the synthesised ICC) is_noop, channel counts unchanged, buffers of arbitrary bit patterns bit-identical after run. \
 Non-trivial: (a),(c) custom chromaticity or gamma present; (b) some |x|>1e-3. Distinct by FNV of the canonical case text."
